@@ -7,6 +7,7 @@ import (
 	"fmt"
 	"strings"
 
+	nebula "github.com/slackhq/nebula"
 	"github.com/slackhq/nebula/iputil"
 	"verifharness/hx"
 )
@@ -14,6 +15,7 @@ import (
 func init() {
 	hx.Register("gen_reject", genReject)
 	hx.Register("reject", runReject)
+	hx.Register("rejcall", runRejCall)
 }
 
 // genReject (T1): the documented upper bound of a reject reply.
@@ -552,4 +554,198 @@ func runReject(c *hx.Ctx) {
 	cw.Meta("second_carry_cases", secondCarry)
 	cw.Meta("second_carry_by_region", secondCarryBy)
 	cw.Close("carry-adversarial corpus (0xff-heavy packets for every reply kind, IPv6 all-0xff length sweep 0..1200, inputs solved so that the IPv4 header / ICMP / ICMPv6 / TCP checksum sum of the reply needs a second end-around carry - counted in second_carry_cases), sweeps (every TCP flag byte, data offset, ICMP/ICMPv6 type, protocol, IHL, fragment bit pattern, chains of 0..12 headers, capacities around every threshold and every capacity 0..1100 on small packets, truncation at every offset) then random: 40% IPv4 (options, TCP/UDP/ICMP/other, fragments), 45% IPv6 (chains, fragments, TCP/UDP/ICMPv6/other), 15% unstructured, 15% of all truncated; capacities 0..1100; non-trivial = a reply was produced; distinct by literal")
+}
+
+// ---- the callers: Interface.rejectInside / Interface.rejectOutside on a minimal Interface (overlay verif_reject.go) ----
+
+func rejBytesList(ws [][]byte) string {
+	items := make([]string, len(ws))
+	for i, w := range ws {
+		items[i] = hx.Bytes(w)
+	}
+	return hx.List(items)
+}
+
+// payload filler with short literals
+func rejFill(n int) []byte {
+	b := make([]byte, n)
+	for i := range b {
+		b[i] = byte(i % 10)
+	}
+	return b
+}
+
+func rejTCPSeg(flags byte, doff int, payload int, seq, ack uint32) []byte {
+	t := ippTCP(0x1234, 0x0050, flags)
+	binary.BigEndian.PutUint32(t[4:], seq)
+	binary.BigEndian.PutUint32(t[8:], ack)
+	t[12] = byte(doff << 4)
+	return append(t, rejFill(payload)...)
+}
+
+func runRejCall(c *hx.Ctx) {
+	cw := c.NewCaseWriter("From NV Require Import corr.Reject_corr.", "Reject_corr.case", "Reject_corr.check_case", 28)
+	rig := nebula.VerifNewRejectRig()
+	emitted, overMax := 0, 0
+	add := func(inside bool, packet []byte, bufLen int, kind string) {
+		p := make([]byte, len(packet))
+		copy(p, packet)
+		var ws [][]byte
+		sent, pan := 0, false
+		func() {
+			defer func() {
+				if r := recover(); r != nil {
+					ws, sent, pan = nil, 0, true
+					rig = nebula.VerifNewRejectRig()
+				}
+			}()
+			if inside {
+				ws = rig.VerifRejectInside(p, bufLen)
+				sent = len(ws)
+			} else {
+				ws, sent = rig.VerifRejectOutside(p, bufLen)
+			}
+		}()
+		if len(ws) > 0 {
+			emitted++
+		}
+		if len(packet) > iputil.MaxRejectPacketSize {
+			overMax++
+		}
+		path := "outside"
+		if inside {
+			path = "inside"
+		}
+		lens := make([]int, len(ws))
+		for i := range ws {
+			lens[i] = len(ws[i])
+		}
+		desc := map[string]any{"path": path, "packet_len": len(packet), "packet_head": hx.Ints(packet[:min(len(packet), 80)]),
+			"buflen": bufLen, "reply_lens": lens, "sent": sent, "panicked": pan}
+		if len(ws) == 1 {
+			desc["reply"] = hx.Ints(ws[0][:min(len(ws[0]), 80)])
+		}
+		cw.Add(hx.App("Reject_corr.CCaller", hx.Bool(inside), hx.Bytes(packet), hx.N(uint64(bufLen)), rejBytesList(ws), hx.N(uint64(sent)), hx.Bool(pan)),
+			path+"-"+kind, len(ws) > 0, desc)
+	}
+	both := func(packet []byte, bufLen int, kind string) {
+		add(true, packet, bufLen, kind)
+		add(false, packet, bufLen, kind)
+	}
+	// a packet of exactly total bytes: v4 (ihl words) or v6 (ext = extension header kinds) carrying `mk(payloadLen)`
+	v4Of := func(total, ihl int, proto byte, ff uint16, hdr func(n int) []byte, hdrLen int) []byte {
+		n := total - ihl*4 - hdrLen
+		if n < 0 {
+			n = 0
+		}
+		return ippV4(ihl, proto, ff, hdr(n))
+	}
+	v6Of := func(total int, kinds []byte, lens []int, term byte, hdr func(n int) []byte, hdrLen int) []byte {
+		extLen := 0
+		for i, k := range kinds {
+			extLen += len(ippExt(k, 0, lens[i], 0, 0, 0))
+		}
+		n := total - 40 - extLen - hdrLen
+		if n < 0 {
+			n = 0
+		}
+		return ippChain(kinds, lens, term, hdr(n))
+	}
+	tcpH := func(flags byte) func(int) []byte {
+		return func(n int) []byte { return rejTCPSeg(flags, 5, n, 0x01020304, 0x0a0b0c0d) }
+	}
+	udpH := func(n int) []byte { return append(ippUDP(4000, 53), rejFill(n)...) }
+	icmpH := func(typ byte) func(int) []byte {
+		return func(n int) []byte { return append(ippICMP(typ, 0, 7, 9), rejFill(n)...) }
+	}
+
+	// ---- lengths straddling MaxRejectPacketSize, default mtu 1300 buffers ----
+	straddle := []int{1048, 1049, 1400}
+	tcpFlags := []byte{0x02, 0x01, 0x08, 0x10, 0x04, 0x19}
+	for _, L := range straddle {
+		for _, fl := range tcpFlags {
+			both(v4Of(L, 5, 6, 0x4000, tcpH(fl), 20), 1300, "v4-tcp-straddle")
+			both(v6Of(L, nil, nil, 6, tcpH(fl), 20), 1300, "v6-tcp-straddle")
+		}
+		both(v4Of(L, 6, 6, 0, tcpH(0x02), 20), 1300, "v4-tcp-straddle")
+		both(v6Of(L, []byte{0, 60}, []int{0, 1}, 6, tcpH(0x02), 20), 1300, "v6-tcp-straddle")
+		both(v6Of(L, []byte{44}, []int{0}, 6, tcpH(0x01), 20), 1300, "v6-tcp-straddle") // first fragment (offset 0)
+		both(v4Of(L, 5, 17, 0, udpH, 8), 1300, "v4-udp-straddle")
+		both(v6Of(L, nil, nil, 17, udpH, 8), 1300, "v6-udp-straddle")
+		both(v6Of(L, []byte{43}, []int{2}, 17, udpH, 8), 9001, "v6-udp-straddle")
+		both(v4Of(L, 5, 1, 0, icmpH(8), 8), 1300, "v4-icmp-straddle")
+		both(v6Of(L, nil, nil, 58, icmpH(128), 8), 9001, "v6-icmp-straddle")
+		both(v4Of(L, 5, 1, 0, icmpH(3), 8), 1300, "icmp-error")
+		both(v6Of(L, nil, nil, 58, icmpH(1), 8), 1300, "icmp-error")
+		both(v4Of(L, 5, 6, 0x00b9, tcpH(0x02), 20), 1300, "fragment")
+		{
+			nf := append(ippV6Fixed(44, L-40, ippSrc6, ippDst6), ippExt(44, 6, 0, 5, 1, 0)...)
+			both(append(nf, rejFill(L-48)...), 1300, "fragment")
+		}
+	}
+	for fl := 0; fl < 64; fl++ { // every TCP flag combination on a packet just over the maximum, alternating family and path
+		if fl%2 == 0 {
+			add(fl%4 == 0, v4Of(1100, 5, 6, 0x4000, tcpH(byte(fl)), 20), 1300, "v4-tcp-flags-1100")
+		} else {
+			add(fl%4 == 1, v6Of(1100, nil, nil, 6, tcpH(byte(fl)), 20), 1300, "v6-tcp-flags-1100")
+		}
+	}
+	// extension header chains that themselves run past MaxRejectPacketSize
+	both(ippChain([]byte{60}, []int{255}, 6, rejTCPSeg(0x02, 5, 10, 1, 1)), 9001, "v6-long-ext")
+	both(ippChain([]byte{0, 43}, []int{100, 60}, 17, udpH(30)), 9001, "v6-long-ext")
+	both(ippChain([]byte{60}, []int{130}, 6, rejTCPSeg(0x11, 5, 0, 9, 9)), 1300, "v6-long-ext")
+	// jumbo
+	// jumbo (a 65535 byte list literal overflows Coq's parser stack; 9000 is the largest length evaluated)
+	add(true, v4Of(9000, 5, 6, 0, tcpH(0x02), 20), 9001, "jumbo")
+	add(false, v6Of(9000, nil, nil, 6, tcpH(0x18), 20), 9001, "jumbo")
+	add(c.Tier == "thorough", v6Of(9000, nil, nil, 17, udpH, 8), 9001, "jumbo")
+	// small lengths and small buffers
+	for L := 1; L <= 1048; L += 97 {
+		both(v4Of(L, 5, 6, 0, tcpH(0x02), 20)[:L], 1300, "len-sweep")
+		both(v6Of(L, nil, nil, 17, udpH, 8)[:L], 1300, "len-sweep")
+	}
+	for _, bl := range []int{0, 1, 39, 40, 79, 80, 81, 96, 119, 120, 121, 200, 2095, 2096, 2097} {
+		both(v4Of(60, 5, 6, 0, tcpH(0x02), 20), bl, "buflen")
+		both(v6Of(100, nil, nil, 17, udpH, 8), bl, "buflen")
+		add(bl%2 == 0, v6Of(1400, nil, nil, 17, udpH, 8), bl, "buflen")
+	}
+
+	// ---- random ----
+	for i := 0; i < c.N; i++ {
+		L := 40 + c.Intn(600)
+		switch c.Intn(10) {
+		case 0, 1, 2, 3:
+			L = 1040 + c.Intn(420)
+		case 4:
+			if c.Tier == "thorough" {
+				L = 1500 + c.Intn(3000)
+			}
+		}
+		bufLen := []int{1300, 1300, 1300, 9001, 1500, 600}[c.Intn(6)]
+		fl := byte(c.Intn(64))
+		var p []byte
+		kind := ""
+		switch c.Intn(8) {
+		case 0, 1, 2:
+			p, kind = v4Of(L, 5+c.Intn(3), 6, 0x4000, tcpH(fl), 20), "v4-tcp"
+		case 3, 4:
+			k := c.Intn(3)
+			kinds, lens := make([]byte, k), make([]int, k)
+			for j := range kinds {
+				kinds[j] = []byte{0, 43, 60, 51}[c.Intn(4)]
+				lens[j] = c.Intn(3)
+			}
+			p, kind = v6Of(L, kinds, lens, 6, tcpH(fl), 20), "v6-tcp"
+		case 5:
+			p, kind = v4Of(L, 5, 17, 0, udpH, 8), "v4-udp"
+		case 6:
+			p, kind = v6Of(L, nil, nil, 17, udpH, 8), "v6-udp"
+		default:
+			p, kind = v6Of(L, nil, nil, 58, icmpH([]byte{128, 1, 3, 135}[c.Intn(4)]), 8), "v6-icmp"
+		}
+		add(c.Chance(0.5), p, bufLen, kind)
+	}
+	cw.Meta("emitted_replies", emitted)
+	cw.Meta("packets_longer_than_max_reject_size", overMax)
+	cw.Close("the real Interface.rejectInside / rejectOutside on a minimal Interface with a recording tun queue, tunnel cipher and underlay writer: packet lengths straddling MaxRejectPacketSize (1048, 1049, 1100, 1400, 9000) for TCP with every flag combination, UDP, ICMP echo / error, fragments, IPv4 options, IPv6 extension headers (also chains longer than the maximum), reject buffers 0..2097 / 1300 / 9001 / 65535, then random lengths 40..1460 (..4500 in the thorough tier); non-trivial = a reply was emitted; distinct by literal")
 }
